@@ -49,7 +49,17 @@ Proof. intros Hne. induction o as [|[k0 v0] r IH]; cbn [obj_set obj_get].
     + apply keq_eq in E. subst k0. now rewrite (keq_neq _ _ Hne).
     + destruct (keq k0 k'); [reflexivity|exact IH]. Qed.
 
-(* ---------- one point: parser.ts:153-159 ---------- *)
+(* number of coordinate letters (not "C") before position d of a format *)
+Definition coord_index (fmt : list N) (d : nat) : nat := length (filter (fun y => negb (y =? 67)%N) (firstn d fmt)).
+(* formats whose "C" is the last letter (every format the library's own estimators write): position = coordinate index *)
+Lemma coord_index_no_C fmt d : ~ In 67%N (firstn d fmt) -> d <= length fmt -> coord_index fmt d = d.
+Proof.
+  revert d. induction fmt as [|y fmt IH]; intros [|d] Hn Hd; cbn [firstn length] in *; try reflexivity; try lia.
+  unfold coord_index in *. cbn [firstn filter]. destruct (N.eqb_spec y 67) as [->|]; [exfalso; apply Hn; now left|].
+  cbn [negb length]. f_equal. apply IH; [intros H; apply Hn; now right|lia].
+Qed.
+
+(* ---------- one point: parser.ts:153-160 ---------- *)
 Section Point.
 Variables (b : jbody) (place : Z).
 Definition pstep (pt : obj) (dd : N * Z) : obj :=
@@ -57,26 +67,29 @@ Definition pstep (pt : obj) (dd : N * Z) : obj :=
   if (dim =? 67)%N then pt else obj_set pt [dim] (f32_at (jb_data b) (js_data_index place (jb_dims b) dim_index)).
 (* a letter that does not occur in the rest of the format keeps its value *)
 Lemma pstep_fold_other fmt : forall n pt x, ~ In x fmt ->
-  obj_get (fold_left pstep (enumerate n fmt) pt) [x] = obj_get pt [x].
+  obj_get (fold_left pstep (enum_coords n fmt) pt) [x] = obj_get pt [x].
 Proof.
-  induction fmt as [|y fmt IH]; intros n pt x Hx; cbn [enumerate fold_left]; [reflexivity|].
+  induction fmt as [|y fmt IH]; intros n pt x Hx; cbn [enum_coords fold_left]; [reflexivity|].
   rewrite IH by (intros H; apply Hx; now right). unfold pstep.
   destruct (N.eqb_spec y 67); [reflexivity|]. apply obj_get_set_other. intros [= E]. apply Hx. now left.
 Qed.
-(* the letter at position d (not "C", not repeated later) holds data[place * _dims + d] *)
+(* the letter at position d (not "C", not repeated later) holds data[place * _dims + k], k = number of coordinate
+   letters before position d *)
 Lemma pstep_fold_at fmt : forall n pt d x, nth_error fmt d = Some x -> x <> 67%N -> ~ In x (skipn (S d) fmt) ->
-  obj_get (fold_left pstep (enumerate n fmt) pt) [x]
-  = Some (f32_at (jb_data b) (js_data_index place (jb_dims b) (n + Z.of_nat d))).
+  obj_get (fold_left pstep (enum_coords n fmt) pt) [x]
+  = Some (f32_at (jb_data b) (js_data_index place (jb_dims b) (n + Z.of_nat (coord_index fmt d)))).
 Proof.
   induction fmt as [|y fmt IH]; intros n pt d x Hd Hx Hlater; [destruct d; discriminate|].
-  destruct d as [|d]; cbn [nth_error enumerate fold_left skipn] in *.
+  destruct d as [|d]; cbn [nth_error enum_coords fold_left skipn] in *.
   - injection Hd as ->. rewrite pstep_fold_other by exact Hlater. unfold pstep.
-    destruct (N.eqb_spec x 67); [contradiction|]. rewrite obj_get_set_same. now rewrite Z.add_0_r.
-  - rewrite (IH (n + 1)%Z _ d x Hd Hx Hlater). do 3 f_equal. lia.
+    destruct (N.eqb_spec x 67); [contradiction|]. rewrite obj_get_set_same. unfold coord_index. cbn [firstn filter length].
+    now rewrite Z.add_0_r.
+  - rewrite (IH _ _ d x Hd Hx Hlater). do 3 f_equal. unfold coord_index. cbn [firstn filter].
+    destruct (N.eqb_spec y 67); cbn [negb length]; lia.
 Qed.
-Lemma pstep_fold_C fmt : forall n pt, obj_get (fold_left pstep (enumerate n fmt) pt) k_C = obj_get pt k_C.
+Lemma pstep_fold_C fmt : forall n pt, obj_get (fold_left pstep (enum_coords n fmt) pt) k_C = obj_get pt k_C.
 Proof.
-  induction fmt as [|y fmt IH]; intros n pt; cbn [enumerate fold_left]; [reflexivity|].
+  induction fmt as [|y fmt IH]; intros n pt; cbn [enum_coords fold_left]; [reflexivity|].
   rewrite IH. unfold pstep. destruct (N.eqb_spec y 67); [reflexivity|].
   apply obj_get_set_other. intros [= E]. contradiction.
 Qed.
@@ -84,7 +97,7 @@ End Point.
 
 Lemma js_point_fields b fmt i j k l :
   js_point b fmt i j k l =
-  VObj (fold_left (pstep b (js_place (js_offset i (jb_people b) (jb_points b) j) k l)) (enumerate 0 fmt)
+  VObj (fold_left (pstep b (js_place (js_offset i (jb_people b) (jb_points b) j) k l)) (enum_coords 0 fmt)
                   [(k_C, f32_at (jb_conf b) (js_place (js_offset i (jb_people b) (jb_points b) j) k l))]).
 Proof. reflexivity. Qed.
 
@@ -130,7 +143,7 @@ Theorem js_cell_lookup (comps : list jcomp) (b : jbody) (i j n l d : nat) (c : j
   js_cell (js_frame_rep comps b (Z.of_nat i)) j (jc_name c) l 67 = Some (f32_at (jb_conf b) place) /\
   (nth_error (jc_format c) d = Some x -> x <> 67%N -> ~ In x (skipn (S d) (jc_format c)) ->
    js_cell (js_frame_rep comps b (Z.of_nat i)) j (jc_name c) l x
-   = Some (f32_at (jb_data b) (js_data_index place (jb_dims b) (Z.of_nat d)))).
+   = Some (f32_at (jb_data b) (js_data_index place (jb_dims b) (Z.of_nat (coord_index (jc_format c) d))))).
 Proof.
   intros Hj Hn Hl Hlater place.
   assert (Hcell : forall letter, js_cell (js_frame_rep comps b (Z.of_nat i)) j (jc_name c) l letter =
